@@ -198,12 +198,18 @@ def run(ck):
     pg = [s for s in mb.body if isinstance(s, ast.Assign) and call_name(s.value) == 'partition_graph']
     ok = len(pg) == 1 and [u(a) for a in pg[0].value.args] == ['system', 'residue_groups.values()']
     cl = [n for n in mb.body if isinstance(n, ast.For) and 'connected_components' in u(n.iter)]
-    ok = ok and len(cl) == 1 and u(cl[0].iter) == 'nx.connected_components({})'.format(u(pg[0].targets[0]) if pg else '?')
-    if ok:
+    rgname = u(pg[0].targets[0]) if pg else '?'
+    if ok and len(cl) == 1:
+        ok = u(cl[0].iter) == 'nx.connected_components({})'.format(rgname)
         body = u(cl[0])
-        ok = "set().union(*({}.nodes[rni]['graph'] for rni in {}))".format(u(pg[0].targets[0]), u(cl[0].target)) in body and \
+        ok = ok and "set().union(*({}.nodes[rni]['graph'] for rni in {}))".format(rgname, u(cl[0].target)) in body and \
             'Molecule(system.subgraph(node_idxs))' in body and 'molecules.append(mol)' in body and \
             all(unconditional_in(mb, cl[0].body, s) for s in cl[0].body)
+    elif ok:
+        # the same thing as one comprehension
+        md = single_def(mb, 'molecules')
+        ok = isinstance(md, ast.ListComp) and len(md.generators) == 1 and not md.generators[0].ifs and u(md.generators[0].iter) == 'nx.connected_components({})'.format(rgname) and \
+            u(md.elt) == "Molecule(system.subgraph(set().union(*({}.nodes[rni]['graph'] for rni in {}))))".format(rgname, u(md.generators[0].target))
     ck.ob('PROV-partition', mod.loc(mb), ok, 'each returned molecule is the union of the whole residues of one connected component of the residue graph '
           'built from the same residue partition', key='PROV-partition')
     dcalls = calls_with_env(mb, lambda c: call_name(c) == '_bonds_from_distance')
